@@ -7,7 +7,9 @@ import Rox.Lemmas.Prims3
 namespace Rox.Lemmas
 open Rox Rox.TM
 
-def RangeOk (txt : Bytes) (r : Range) : Prop := r.1 ≤ r.2 ∧ r.2 ≤ txt.length
+/-- a source range: ordered, inside the input, both ends on character boundaries -/
+def RangeOk (txt : Bytes) (r : Range) : Prop :=
+  r.1 ≤ r.2 ∧ r.2 ≤ txt.length ∧ isCharBoundary txt r.1 = true ∧ isCharBoundary txt r.2 = true
 
 /-- What every delivered token satisfies. -/
 def TokOk (txt : Bytes) : Token → Prop
@@ -15,14 +17,15 @@ def TokOk (txt : Bytes) : Token → Prop
   | .comment t r => SpanOk txt t ∧ RangeOk txt r ∧
       -- C08: no "--" inside, no "-" at the end
       containsSub t.bytes Lit.dashDash = false ∧ t.bytes.getLast? ≠ some bDash
-  | .entityDecl n v => SpanOk txt n ∧ SpanOk txt v
-  | .elementStart p l s => SpanOk txt p ∧ SpanOk txt l ∧ s ≤ txt.length
-  | .attribute r _ _ p l v => RangeOk txt r ∧ SpanOk txt p ∧ SpanOk txt l ∧ SpanOk txt v ∧
+  | .entityDecl n v => SpanOk txt n ∧ SpanU txt v
+  | .elementStart p l s => SpanOk txt p ∧ SpanOk txt l ∧ s ≤ txt.length ∧ l.bytes ≠ [] ∧
+      isCharBoundary txt s = true
+  | .attribute r _ _ p l v => RangeOk txt r ∧ SpanOk txt p ∧ SpanOk txt l ∧ SpanU txt v ∧
       -- C08: no '<' in a delivered attribute value
       (∀ b ∈ v.bytes, b ≠ bLt)
   | .elementEnd (.close p l) r => SpanOk txt p ∧ SpanOk txt l ∧ RangeOk txt r
   | .elementEnd _ r => RangeOk txt r
-  | .text t r => SpanOk txt t ∧ RangeOk txt r ∧ r = (t.off, t.off + t.bytes.length) ∧
+  | .text t r => SpanU txt t ∧ RangeOk txt r ∧ r = (t.off, t.off + t.bytes.length) ∧
       -- C08: no "]]>" in character data
       (t.bytes.contains bGt && containsSub t.bytes Lit.cdataEnd) = false
   | .cdata t r => SpanOk txt t ∧ RangeOk txt r
@@ -36,9 +39,10 @@ theorem Step1.len {txt : Bytes} {s s' : Stream} (h : Step1 txt s s') : s'.rest.l
 theorem Step.len_le {txt : Bytes} {s s' : Stream} (h : Step txt s s') : s'.rest.length ≤ s.rest.length := by
   have := h.1.len; have := h.1.pos_le; omega
 
-theorem Step.range {txt : Bytes} {s s' : Stream} (h : Step txt s s') : RangeOk txt (s.pos, s'.pos) := by
+theorem Step.range {txt : Bytes} {s s' : Stream} (h : Step txt s s') (hs : SOk txt s) :
+    RangeOk txt (s.pos, s'.pos) := by
   have h1 := h.1.pos_le; have h2 := h.2.bound
-  exact ⟨h1, by simp only; omega⟩
+  exact ⟨h1, by simp only; omega, hs.pos_boundary.2, h.2.pos_boundary.2⟩
 
 theorem lit_valid (l : Bytes) (h : l.all (· < 128) = true) : ValidUtf8 l :=
   valid_all_ascii l (by simpa [List.all_eq_true] using h)
@@ -138,7 +142,7 @@ theorem parseComment_spec {s : Stream} (hs : SOk txt s) (hp : s.startsWith Lit.c
     · exact spec_of_rspec _ _ _ (errFrom_safe _ _ _ _)
     · rename_i hld
       apply spec_bind _ _ _ (fun _ => True) _
-        (spec_emit _ _ ⟨hsp, h13.range, by simpa using hdd, by simpa using hld⟩)
+        (spec_emit _ _ ⟨hsp, h13.range hs, by simpa using hdd, by simpa using hld⟩)
       intro _ _
       exact spec_pure _ _ _ ⟨h13, hlt⟩
 
@@ -162,7 +166,7 @@ theorem parsePi_spec {s : Stream} (hs : SOk txt s) (hp : s.startsWith Lit.piStar
       have := h2.1.pos_le; have := h3.1.pos_le; have := h4.1.pos_le; have := h5.1.pos_le; simp only at *; omega
     apply spec_bind _ _ _ (fun _ => True)
     · apply spec_emit
-      refine ⟨hsp2, ?_, h15.range, htne⟩
+      refine ⟨hsp2, ?_, h15.range hs, htne⟩
       intro v' hv'
       split at hv'
       · rename_i hne
@@ -218,7 +222,7 @@ theorem spanBytes_took (f : UInt8 → Bool) : ∀ (l : Bytes) (pos : Nat) (acc :
 omit hT in
 /-- `consume_bytes(|c| c != quote)`: up to the closing quote (an ASCII byte) -/
 theorem consumeUntilQuote_spec {s : Stream} (hs : SOk txt s) (q : UInt8) (hq : q < 128) :
-    Step txt s (s.consumeBytes (fun c => c != q)).1 ∧ SpanOk txt (s.consumeBytes (fun c => c != q)).2 := by
+    Step txt s (s.consumeBytes (fun c => c != q)).1 ∧ SpanU txt (s.consumeBytes (fun c => c != q)).2 := by
   unfold Stream.consumeBytes
   have hstep := spanBytes_stop_step (txt := txt) (fun c => c != q)
     (by intro b hb; simp only [bne_eq_false_iff_eq] at hb; subst hb; exact hq) s.rest s.pos [] hs
@@ -229,7 +233,7 @@ theorem consumeUntilQuote_spec {s : Stream} (hs : SOk txt s) (q : UInt8) (hq : q
   intro hstep he ht
   simp only [List.reverse_nil, List.nil_append] at he
   subst he
-  exact ⟨hstep, ht.spanOk hs⟩
+  exact ⟨hstep, ht.spanU hs hstep.2⟩
 
 theorem parseExternalId_spec {s : Stream} (hs : SOk txt s) :
     RSpec (parseExternalId T txt s) (fun p => Step txt s p.1) := by
@@ -271,7 +275,7 @@ theorem parseExternalId_spec {s : Stream} (hs : SOk txt s) :
 
 theorem parseEntityDef_spec {s : Stream} (hs : SOk txt s) (isGe : Bool) :
     RSpec (parseEntityDef T txt s isGe)
-      (fun p => Step txt s p.1 ∧ ∀ v, p.2 = some v → SpanOk txt v) := by
+      (fun p => Step txt s p.1 ∧ ∀ v, p.2 = some v → SpanU txt v) := by
   unfold parseEntityDef
   apply rspec_bind _ _ (fun _ => True)
   · unfold Stream.currByte; split
@@ -540,7 +544,7 @@ theorem startTagLoop_spec : ∀ (fuel : Nat) (s : Stream), s.rest.length < fuel 
         intro s2 h2
         apply spec_bind _ _ _ _ _ (spec_of_rspec _ _ _ (consumeByte_spec h2.2 bGt (by decide)))
         rintro s3 ⟨h3, _⟩
-        apply spec_bind _ _ _ (fun _ => True) _ (spec_emit _ _ (Step.trans h2 h3).range)
+        apply spec_bind _ _ _ (fun _ => True) _ (spec_emit _ _ ((Step.trans h2 h3).range h1.2))
         intro _ _
         exact spec_pure _ _ _ (Step.trans h1 (Step.trans h2 h3))
       · split
@@ -556,7 +560,7 @@ theorem startTagLoop_spec : ∀ (fuel : Nat) (s : Stream), s.rest.length < fuel 
             have hd : (s.skipSpaces T).rest.drop 1 = r := by rw [hr]; rfl
             rw [hd]; exact step_ascii h1.2 bGt r hr (by decide)
           intro s2 h2
-          apply spec_bind _ _ _ (fun _ => True) _ (spec_emit _ _ h2.range)
+          apply spec_bind _ _ _ (fun _ => True) _ (spec_emit _ _ (h2.range h1.2))
           intro _ _
           exact spec_pure _ _ _ (Step.trans h1 h2)
         · -- an attribute
@@ -567,7 +571,7 @@ theorem startTagLoop_spec : ∀ (fuel : Nat) (s : Stream), s.rest.length < fuel 
             · exact rspec_ok _ _ (Step.refl h1.2)
           intro s2 h2
           apply spec_bind _ _ _ _ _ (spec_of_rspec _ _ _ (consumeQName_spec T txt h2.2))
-          rintro ⟨s3, pfx, loc⟩ ⟨h3, hsp, hsl⟩
+          rintro ⟨s3, pfx, loc⟩ ⟨h3, hsp, hsl, _⟩
           simp only at h3 hsp hsl ⊢
           apply spec_bind _ _ _ _ _ (spec_of_rspec _ _ _ (consumeEq_spec T hT h3.2))
           intro s4 h4
@@ -575,8 +579,11 @@ theorem startTagLoop_spec : ∀ (fuel : Nat) (s : Stream), s.rest.length < fuel 
           rintro ⟨s5, q⟩ ⟨h5, hq, _⟩
           simp only at h5 ⊢
           apply spec_bind _ _ _ _ _ (spec_of_rspec _ _ _ (advanceUntil2_spec txt h5.2 q bLt hq (by decide)))
-          rintro ⟨s6, value⟩ ⟨h6, hsv, _, htk, hnolt⟩
-          simp only at h6 hsv htk hnolt ⊢
+          rintro ⟨s6, value⟩ ⟨h6, hsv, hvoff, htk, hnolt⟩
+          simp only at h6 hsv hvoff htk hnolt ⊢
+          have hvu : SpanU txt value := by
+            have := htk.spanU h5.2 h6.2
+            rw [← hvoff] at this; exact this
           have hvv : ValidUtf8 value.bytes := by
             rw [htk.2.2.2]
             apply valid_prefix _ _ h5.2.utf8
@@ -587,7 +594,7 @@ theorem startTagLoop_spec : ∀ (fuel : Nat) (s : Stream), s.rest.length < fuel 
           rintro s7 ⟨h7, hp7⟩
           have h27 := Step.trans h2 (Step.trans h3 (Step.trans h4 (Step.trans h5 (Step.trans h6 h7))))
           apply spec_bind _ _ _ (fun _ => True) _
-            (spec_emit _ _ ⟨h27.range, hsp, hsl, hsv, fun b hb => (hnolt b hb).2⟩)
+            (spec_emit _ _ ⟨h27.range h1.2, hsp, hsl, hvu, fun b hb => (hnolt b hb).2⟩)
           intro _ _
           have hlen : s7.rest.length < (s.skipSpaces T).rest.length := by
             have e := h27.1.len
@@ -610,9 +617,9 @@ theorem parseStartTag_spec {s : Stream} (hs : SOk txt s) (b : UInt8) (r : Bytes)
     rw [hd]; exact ⟨step_ascii hs b r hr hb, rfl⟩
   rintro s1 ⟨h1, hp1⟩
   apply spec_bind _ _ _ _ _ (spec_of_rspec _ _ _ (consumeQName_spec T txt h1.2))
-  rintro ⟨s2, pfx, loc⟩ ⟨h2, hsp, hsl⟩
-  simp only at h2 hsp hsl ⊢
-  apply spec_bind _ _ _ (fun _ => True) _ (spec_emit _ _ ⟨hsp, hsl, by have := hs.bound; omega⟩)
+  rintro ⟨s2, pfx, loc⟩ ⟨h2, hsp, hsl, hne⟩
+  simp only at h2 hsp hsl hne ⊢
+  apply spec_bind _ _ _ (fun _ => True) _ (spec_emit _ _ ⟨hsp, hsl, by have := hs.bound; have := hs.pos_boundary; omega, hne, hs.pos_boundary.2⟩)
   intro _ _
   apply spec_bind _ _ _ _ _ (startTagLoop_spec T hT txt _ s2 (by omega) h2.2)
   rintro ⟨s3, fin⟩ h3
@@ -633,7 +640,7 @@ theorem parseCdata_spec {s : Stream} (hs : SOk txt s) (hp : s.startsWith Lit.cda
   apply spec_bind _ _ _ _ _ (spec_of_rspec _ _ _ (skipString_spec h2.2 Lit.cdataEnd (lit_valid _ (by decide))))
   rintro s3 ⟨h3, _⟩
   have h13 := Step.trans h1 (Step.trans h2 h3)
-  apply spec_bind _ _ _ (fun _ => True) _ (spec_emit _ _ ⟨hsp, h13.range⟩)
+  apply spec_bind _ _ _ (fun _ => True) _ (spec_emit _ _ ⟨hsp, h13.range hs⟩)
   intro _ _
   refine spec_pure _ _ _ ⟨h13, ?_⟩
   have := h2.1.pos_le; have := h3.1.pos_le; omega
@@ -645,13 +652,13 @@ theorem parseCloseElement_spec {s : Stream} (hs : SOk txt s) (hp : s.startsWith 
   · exact spec_of_rspec _ _ _ (advance_lit hs [60, 47] hp (lit_valid _ (by decide)))
   rintro s1 ⟨h1, hp1⟩
   apply spec_bind _ _ _ _ _ (spec_of_rspec _ _ _ (consumeQName_spec T txt h1.2))
-  rintro ⟨s2, pfx, loc⟩ ⟨h2, hsp, hsl⟩
+  rintro ⟨s2, pfx, loc⟩ ⟨h2, hsp, hsl, _⟩
   simp only at h2 hsp hsl ⊢
   have h3 := skipSpaces_step T hT h2.2
   apply spec_bind _ _ _ _ _ (spec_of_rspec _ _ _ (consumeByte_spec h3.2 bGt (by decide)))
   rintro s4 ⟨h4, _⟩
   have h14 := Step.trans h1 (Step.trans h2 (Step.trans h3 h4))
-  apply spec_bind _ _ _ (fun _ => True) _ (spec_emit _ _ ⟨hsp, hsl, h14.range⟩)
+  apply spec_bind _ _ _ (fun _ => True) _ (spec_emit _ _ ⟨hsp, hsl, h14.range hs⟩)
   intro _ _
   refine spec_pure _ _ _ ⟨h14, ?_⟩
   have := h2.1.pos_le; have := h3.1.pos_le; have := h4.1.pos_le; omega
@@ -747,7 +754,9 @@ theorem parseText_spec {s : Stream} (hs : SOk txt s) (b : UInt8) (r : Bytes) (hr
   · rename_i hcd
     apply spec_bind _ _ _ (fun _ => True)
     · apply spec_emit
-      refine ⟨hsp, h1.range, ?_, by simpa using hcd⟩
+      have hu := htk.spanU hs h1.2
+      rw [← hoff] at hu
+      refine ⟨hu, h1.range hs, ?_, by simpa using hcd⟩
       rw [hoff, htk.2.1]
     intro _ _
     exact spec_pure _ _ _ ⟨h1, hlt⟩
